@@ -237,3 +237,43 @@ func Bound(name string, quick, thorough int) int {
 	}
 	return quick
 }
+
+// And / Or / Not / Implies combine conditions without introducing branches (in the engine they
+// build one term instead of forking the path).
+func And(cs ...bool) bool {
+	for _, c := range cs {
+		if !c {
+			return false
+		}
+	}
+	return true
+}
+
+func Or(cs ...bool) bool {
+	for _, c := range cs {
+		if c {
+			return true
+		}
+	}
+	return false
+}
+
+func Not(c bool) bool { return !c }
+
+func Implies(a, b bool) bool { return !a || b }
+
+// CharsIn reports whether every byte of s occurs in set.
+func CharsIn(s string, set string) bool {
+	for i := 0; i < len(s); i++ {
+		if strings.IndexByte(set, s[i]) < 0 {
+			return false
+		}
+	}
+	return true
+}
+
+// BytesEq compares without branching on individual bytes.
+func BytesEq(a, b []byte) bool { return string(a) == string(b) }
+
+// StrEq compares strings (one term in the engine).
+func StrEq(a, b string) bool { return a == b }
